@@ -343,6 +343,43 @@ func genFourDataset(repo, dir string) {
 	}
 }
 
+// genTieDataset: the shipped engine data with every cost moved onto an EXACT half cent that binary64 represents exactly
+// (x.125, x.375, x.625, x.875): RoundFloat(+c, 2) and RoundFloat(-c, 2) must mirror each other, or switching an action on
+// and off again through an incremental route leaves a cent behind that the whole-set routes do not show (seed C14k).
+func genTieDataset(repo, dir string) {
+	must(os.MkdirAll(dir, 0o755))
+	src := filepath.Join(repo, "cmd/cremengine/engine/api/testdata")
+	fracs := []string{".125", ".375", ".625", ".875"}
+	for _, f := range []string{"ValidModel.csv", "ValidSubcatchments.csv", "ValidGullies.csv", "ValidActions.csv"} {
+		b, err := os.ReadFile(filepath.Join(src, f))
+		must(err)
+		text := string(b)
+		if f == "ValidActions.csv" {
+			lines := strings.Split(text, "\n")
+			k := 0
+			for i, l := range lines {
+				cells := strings.Split(l, ",")
+				if i == 0 || len(cells) < 4 {
+					continue
+				}
+				for _, c := range []int{2, 3} {
+					v := strings.TrimSpace(cells[c])
+					if _, err := strconv.ParseUint(v, 10, 64); err == nil && v != "0" {
+						cells[c] = v + fracs[k%4]
+						k++
+					}
+				}
+				lines[i] = strings.Join(cells, ",")
+			}
+			text = strings.Join(lines, "\n")
+		}
+		if f == "ValidModel.csv" {
+			text = strings.ReplaceAll(text, "Valid", "Tie")
+		}
+		must(os.WriteFile(filepath.Join(dir, "Tie"+strings.TrimPrefix(f, "Valid")), []byte(text), 0o644))
+	}
+}
+
 // genBigDataset: 20-26 planning units, most of them offering all four action types: more than 64 management actions, so
 // that action-set encodings have two words (`<hex>:<hex>`) in PATCH bodies, the Encoding attribute and front matching.
 func genBigDataset(r *Rng, dir string) {
@@ -454,6 +491,8 @@ func (cat *engCatalogue) ensureDataset(rel string) bool {
 		must(os.WriteFile(filepath.Join(dir, "bModel.csv"), []byte(meta), 0o644))
 	case rel == "ds/four/FourModel.csv":
 		genFourDataset(repo, filepath.Join(cat.root, "ds/four"))
+	case rel == "ds/tie/TieModel.csv":
+		genTieDataset(repo, filepath.Join(cat.root, "ds/tie"))
 	case bigDsRe.MatchString(rel):
 		m := bigDsRe.FindStringSubmatch(rel)
 		if rel != "ds/big-"+m[1]+"/bModel.csv" {
